@@ -1,3 +1,457 @@
+/-
+C16 — boundary states satisfy the conditions that define them.
+
+Over ℝ (`Real.sqrt`, `Real.rpow`).  `dir = -1` (left boundary) or `+1` (right boundary); regime
+hypotheses are explicit.  Totals of a primitive state:
+  ptotOf  = p (1 + (γ-1)/2 M²)^(γ/(γ-1)),   rttotOf = p/ρ (1 + (γ-1)/2 M²),   M² = u²/(γ p/ρ).
+-/
+import Flowdyn.Model.Kernels.ShallowWater
 import Flowdyn.Model.Kernels.Euler
+import Flowdyn.Model.Kernels.Euler2D
+import Flowdyn.Lemmas.RealInst
+import Mathlib.Tactic.Ring
+import Mathlib.Tactic.Linarith
+import Mathlib.Tactic.FieldSimp
+import Mathlib.Tactic.Positivity
+import Mathlib.Tactic.NormNum
+
 namespace Flowdyn.C16
+open Flowdyn
+
+noncomputable def ptotOf (γ r u p : ℝ) : ℝ := p * (1 + (γ - 1) / 2 * (u ^ 2 / (γ * p / r))) ^ (γ / (γ - 1))
+noncomputable def rttotOf (γ r u p : ℝ) : ℝ := p / r * (1 + (γ - 1) / 2 * (u ^ 2 / (γ * p / r)))
+
+
+/-! ### helper lemmas: the isentropic relations behind the inlet conditions -/
+
+private lemma X_eq (γ q : ℝ) (hγ : 1 < γ) (hq : 1 ≤ q) :
+    0 ≤ max 0 ((q ^ ((γ - 1) / γ) - 1) * 2 / (γ - 1)) ∧
+    1 + 1/2 * (γ - 1) * max 0 ((q ^ ((γ - 1) / γ) - 1) * 2 / (γ - 1)) = q ^ ((γ - 1) / γ) := by
+  have hgmu : 0 < γ - 1 := by linarith
+  have hg0 : 0 < γ := by linarith
+  have hpow : 1 ≤ q ^ ((γ - 1) / γ) := Real.one_le_rpow hq (by positivity)
+  have hm2 : max 0 ((q ^ ((γ - 1) / γ) - 1) * 2 / (γ - 1))
+      = (q ^ ((γ - 1) / γ) - 1) * 2 / (γ - 1) := by
+    apply max_eq_right; apply div_nonneg _ hgmu.le; nlinarith
+  refine ⟨le_max_left _ _, ?_⟩
+  rw [hm2]; field_simp; ring
+
+private lemma X_pow (γ q : ℝ) (hγ : 1 < γ) (hq : 0 < q) :
+    (q ^ ((γ - 1) / γ)) ^ (γ / (γ - 1)) = q ∧
+    (q ^ ((γ - 1) / γ)) ^ (1 / (γ - 1)) * q ^ ((γ - 1) / γ) = q := by
+  have hgmu : 0 < γ - 1 := by linarith
+  have hg0 : 0 < γ := by linarith
+  constructor
+  · rw [← Real.rpow_mul hq.le]
+    have : (γ - 1) / γ * (γ / (γ - 1)) = 1 := by field_simp
+    rw [this, Real.rpow_one]
+  · rw [← Real.rpow_mul hq.le, ← Real.rpow_add hq]
+    have : (γ - 1) / γ * (1 / (γ - 1)) + (γ - 1) / γ = 1 := by field_simp; ring
+    rw [this, Real.rpow_one]
+
+/-- common core of `insub`, `insup`, `outsub_qtot` and their 2D versions -/
+private lemma inlet_core (γ ptot rttot p v m2 rh : ℝ) (hγ : 1 < γ) (hp : 0 < p) (hpt : p ≤ ptot)
+    (hrt : 0 < rttot)
+    (hm2 : m2 = max 0 (((ptot / p) ^ ((γ - 1) / γ) - 1) * 2 / (γ - 1)))
+    (hrh : rh = ptot / rttot / (1 + 1/2 * (γ - 1) * m2) ^ (1 / (γ - 1))) :
+    0 ≤ m2 ∧ 0 < rh ∧
+      (v ^ 2 = γ * m2 * p / rh → ptotOf γ rh v p = ptot ∧ rttotOf γ rh v p = rttot) := by
+  have hgmu : 0 < γ - 1 := by linarith
+  have hg0 : 0 < γ := by linarith
+  have hptot : 0 < ptot := lt_of_lt_of_le hp hpt
+  have hratio : 1 ≤ ptot / p := by rw [le_div_iff₀ hp]; linarith
+  have hq : 0 < ptot / p := by positivity
+  obtain ⟨hm0, hX⟩ := X_eq γ (ptot / p) hγ hratio
+  obtain ⟨hP1, hP2⟩ := X_pow γ (ptot / p) hγ hq
+  rw [← hm2] at hm0 hX
+  rw [hX] at hrh
+  set X := (ptot / p) ^ ((γ - 1) / γ) with hXdef
+  have hXpos : 0 < X := by positivity
+  have hXg : 0 < X ^ (1 / (γ - 1)) := by positivity
+  have hrhpos : 0 < rh := by rw [hrh]; positivity
+  refine ⟨hm0, hrhpos, fun hv => ?_⟩
+  have hM : v ^ 2 / (γ * p / rh) = m2 := by rw [hv]; field_simp
+  have hF : 1 + (γ - 1) / 2 * m2 = X := by rw [← hX]; ring
+  constructor
+  · unfold ptotOf
+    rw [hM, hF, hP1]; field_simp
+  · unfold rttotOf
+    rw [hM, hF, hrh]
+    have : p / (ptot / rttot / X ^ (1 / (γ - 1))) * X
+        = p * rttot / ptot * (X ^ (1 / (γ - 1)) * X) := by field_simp
+    rw [this, hP2]; field_simp
+
+
+/-- with the totals of `(r,u,p)` itself the inlet computation recovers `M²` and `ρ` -/
+private lemma compat_core (γ r u p : ℝ) (hγ : 1 < γ) (hr : 0 < r) (hp : 0 < p) :
+    max 0 (((ptotOf γ r u p / p) ^ ((γ - 1) / γ) - 1) * 2 / (γ - 1)) = u ^ 2 / (γ * p / r) ∧
+    ptotOf γ r u p / rttotOf γ r u p
+      / (1 + 1/2 * (γ - 1) * (u ^ 2 / (γ * p / r))) ^ (1 / (γ - 1)) = r := by
+  have hgmu : 0 < γ - 1 := by linarith
+  have hg0 : 0 < γ := by linarith
+  have hM0 : 0 ≤ u ^ 2 / (γ * p / r) := by positivity
+  unfold ptotOf rttotOf
+  set M2 := u ^ 2 / (γ * p / r) with hM2
+  have hFF : 1 + 1/2 * (γ - 1) * M2 = 1 + (γ - 1) / 2 * M2 := by ring
+  rw [hFF]
+  set F := 1 + (γ - 1) / 2 * M2 with hF
+  have hFpos : 0 < F := by rw [hF]; positivity
+  have hq : p * F ^ (γ / (γ - 1)) / p = F ^ (γ / (γ - 1)) := by field_simp
+  have hback : (F ^ (γ / (γ - 1))) ^ ((γ - 1) / γ) = F := by
+    rw [← Real.rpow_mul hFpos.le]
+    have : γ / (γ - 1) * ((γ - 1) / γ) = 1 := by field_simp
+    rw [this, Real.rpow_one]
+  have hadd : F ^ (1 / (γ - 1)) * F = F ^ (γ / (γ - 1)) := by
+    have h1 : F ^ (1 / (γ - 1)) * F = F ^ (1 / (γ - 1)) * F ^ (1 : ℝ) := by rw [Real.rpow_one]
+    rw [h1, ← Real.rpow_add hFpos]
+    congr 1; field_simp; ring
+  have hG : 0 < F ^ (1 / (γ - 1)) := by positivity
+  constructor
+  · rw [hq, hback]
+    have : (F - 1) * 2 / (γ - 1) = M2 := by rw [hF]; field_simp; ring
+    rw [this]; exact max_eq_right hM0
+  · rw [← hadd]; field_simp
+
+private lemma rh_alg (γ r p M : ℝ) (hγ : 1 < γ) (hr : 0 < r) (hp : 0 < p) (hM : 0 < M) :
+    r * ((γ + 1) * M / (2 + (γ - 1) * M)) * (γ * p / r * M / ((γ + 1) * M / (2 + (γ - 1) * M)) ^ 2)
+        + p * (1 + (M - 1) * (2 * γ) / (γ + 1)) = r * (γ * p / r * M) + p ∧
+    γ / (γ - 1) * (p * (1 + (M - 1) * (2 * γ) / (γ + 1))) / (r * ((γ + 1) * M / (2 + (γ - 1) * M)))
+        + (γ * p / r * M / ((γ + 1) * M / (2 + (γ - 1) * M)) ^ 2) / 2
+      = γ / (γ - 1) * p / r + (γ * p / r * M) / 2 := by
+  have hgmu : 0 < γ - 1 := by linarith
+  have hg0 : 0 < γ := by linarith
+  have hden : 0 < 2 + (γ - 1) * M := by have := mul_pos hgmu hM; linarith
+  have h1 : γ - 1 ≠ 0 := hgmu.ne'
+  have h2 : 2 + (γ - 1) * M ≠ 0 := hden.ne'
+  have h3 : γ + 1 ≠ 0 := by linarith
+  constructor
+  · field_simp; ring
+  · field_simp; ring
+
+
+private lemma rpow_inv_mul_self (γ F : ℝ) (hγ : 1 < γ) (hF : 0 < F) :
+    F ^ (1 / (γ - 1)) * F = F ^ (γ / (γ - 1)) := by
+  have hgmu : 0 < γ - 1 := by linarith
+  have h1 : F ^ (1 / (γ - 1)) * F = F ^ (1 / (γ - 1)) * F ^ (1 : ℝ) := by rw [Real.rpow_one]
+  rw [h1, ← Real.rpow_add hF]
+  congr 1; field_simp; ring
+
+/-- the sound speed chosen by `insub_cbc` satisfies the energy relation `a1² + (γ-1)/2 u1² = γ r Tt` -/
+private lemma cbc_alg (γ d I s rttot : ℝ) (hγ : 1 < γ) (hd : d = 1 ∨ d = -1)
+    (hs2 : s ^ 2 = γ * (γ + 1) / (γ - 1) * rttot - 1/2 * (γ - 1) * I ^ 2) :
+    ((d * I + s) * (γ - 1) / (γ + 1)) ^ 2
+      + 1/2 * (γ - 1) * (I - d * 2 * ((d * I + s) * (γ - 1) / (γ + 1)) / (γ - 1)) ^ 2
+      = γ * rttot := by
+  have hgmu : 0 < γ - 1 := by linarith
+  have hg0 : 0 < γ := by linarith
+  have h1 : γ - 1 ≠ 0 := hgmu.ne'
+  have h3 : γ + 1 ≠ 0 := by linarith
+  have hrt : rttot = (s ^ 2 + 1/2 * (γ - 1) * I ^ 2) * (γ - 1) / (γ * (γ + 1)) := by
+    rw [hs2]; field_simp; ring
+  rw [hrt]
+  rcases hd with h | h <;> subst h <;> field_simp <;> ring
+
+/-! ### trivial conditions (any ordered field would do; stated on ℝ) -/
+theorem sym_reverses_velocity_only (r u p : ℝ) : eBcSym r u p = (r, -u, p) := rfl
+theorem outsup_copies (r u p : ℝ) : eBcOutsup r u p = (r, u, p) := rfl
+theorem outsub_imposes_pressure (pext r u p : ℝ) : eBcOutsub pext r u p = (r, u, pext) := rfl
+theorem sw_sym (h u : ℝ) : swBcSym h u = (h, -u) := rfl
+theorem sw_inf (h u : ℝ) : swBcInf h u = (h, u) := rfl
+
+/-! ### insub: imposed total pressure and temperature, interior pressure kept, inflow -/
+theorem insub_def (γ dir ptot rttot r u p : ℝ) (hγ : 1 < γ) (hp : 0 < p) (hpt : p ≤ ptot)
+    (hrt : 0 < rttot) (hdir : dir = 1 ∨ dir = -1) :
+    (let W := eBcInsub γ dir ptot rttot r u p
+     W.2.2 = p ∧ 0 < W.1 ∧ ptotOf γ W.1 W.2.1 W.2.2 = ptot ∧ rttotOf γ W.1 W.2.1 W.2.2 = rttot
+     ∧ 0 ≤ -dir * W.2.1) := by
+  simp only [eBcInsub, HasSqrt.sqrt_real, HasRpow.rpow_real]
+  set m2 := max 0 (((ptot / p) ^ ((γ - 1) / γ) - 1) * 2 / (γ - 1)) with hm2
+  set rh := ptot / rttot / (1 + 1/2 * (γ - 1) * m2) ^ (1 / (γ - 1)) with hrh
+  have hg0 : 0 < γ := by linarith
+  obtain ⟨hm0, hrhpos, hcore⟩ :=
+    inlet_core γ ptot rttot p (-dir * Real.sqrt (γ * m2 * p / rh)) m2 rh hγ hp hpt hrt hm2 hrh
+  have hrad : 0 ≤ γ * m2 * p / rh := by positivity
+  have hd2 : dir ^ 2 = 1 := by rcases hdir with h | h <;> rw [h] <;> norm_num
+  have hv : (-dir * Real.sqrt (γ * m2 * p / rh)) ^ 2 = γ * m2 * p / rh := by
+    rw [mul_pow, Real.sq_sqrt hrad, neg_sq, hd2, one_mul]
+  obtain ⟨h1, h2⟩ := hcore hv
+  refine ⟨trivial, hrhpos, h1, h2, ?_⟩
+  have : -dir * (-dir * Real.sqrt (γ * m2 * p / rh)) = dir ^ 2 * Real.sqrt (γ * m2 * p / rh) := by
+    ring
+  rw [this, hd2, one_mul]; exact Real.sqrt_nonneg _
+
+/-! ### insup: imposed totals and static pressure, inflow -/
+theorem insup_def (γ dir ptot rttot pin : ℝ) (hγ : 1 < γ) (hp : 0 < pin) (hpt : pin ≤ ptot)
+    (hrt : 0 < rttot) (hdir : dir = 1 ∨ dir = -1) :
+    (let W := eBcInsup γ dir ptot rttot pin
+     W.2.2 = pin ∧ 0 < W.1 ∧ ptotOf γ W.1 W.2.1 W.2.2 = ptot ∧ rttotOf γ W.1 W.2.1 W.2.2 = rttot
+     ∧ 0 ≤ -dir * W.2.1) := by
+  have h := insub_def γ dir ptot rttot 1 0 pin hγ hp hpt hrt hdir
+  exact h
+
+/-! ### insub_cbc: imposed totals, outgoing Riemann invariant `u + dir·2c/(γ-1)` kept.
+Regime: positive discriminant and positive resulting sound speed `a1`. -/
+theorem insub_cbc_def (γ dir ptot rttot r u p : ℝ) (hγ : 1 < γ) (hr : 0 < r) (hp : 0 < p)
+    (hpt : 0 < ptot) (hrt : 0 < rttot) (hdir : dir = 1 ∨ dir = -1)
+    (hdisc : 0 ≤ γ * (γ + 1) / (γ - 1) * rttot
+                 - 1/2 * (γ - 1) * (u + dir * 2 * Real.sqrt (γ * p / r) / (γ - 1)) ^ 2)
+    (ha1 : 0 < dir * (u + dir * 2 * Real.sqrt (γ * p / r) / (γ - 1))
+               + Real.sqrt (γ * (γ + 1) / (γ - 1) * rttot
+                   - 1/2 * (γ - 1) * (u + dir * 2 * Real.sqrt (γ * p / r) / (γ - 1)) ^ 2)) :
+    (let W := eBcInsubCbc γ dir ptot rttot r u p
+     0 < W.1 ∧ 0 < W.2.2
+     ∧ ptotOf γ W.1 W.2.1 W.2.2 = ptot ∧ rttotOf γ W.1 W.2.1 W.2.2 = rttot
+     ∧ W.2.1 + dir * 2 * Real.sqrt (γ * W.2.2 / W.1) / (γ - 1)
+         = u + dir * 2 * Real.sqrt (γ * p / r) / (γ - 1)) := by
+  simp only [eBcInsubCbc, HasSqrt.sqrt_real, HasRpow.rpow_real]
+  have hgmu : 0 < γ - 1 := by linarith
+  have hg0 : 0 < γ := by linarith
+  set I := u + dir * 2 * Real.sqrt (γ * p / r) / (γ - 1) with hI
+  set D := γ * (γ + 1) / (γ - 1) * rttot - 1/2 * (γ - 1) * I ^ 2 with hD
+  set s := Real.sqrt D with hs
+  have hs2 : s ^ 2 = γ * (γ + 1) / (γ - 1) * rttot - 1/2 * (γ - 1) * I ^ 2 := Real.sq_sqrt hdisc
+  have hE := cbc_alg γ dir I s rttot hγ hdir hs2
+  set a1 := (dir * I + s) * (γ - 1) / (γ + 1) with ha1def
+  set u1 := I - dir * 2 * a1 / (γ - 1) with hu1
+  have ha1pos : 0 < a1 := by rw [ha1def]; positivity
+  set f := 1 + 1/2 * (γ - 1) * (u1 / a1) ^ 2 with hf
+  have hfpos : 0 < f := by rw [hf]; positivity
+  clear_value f u1 a1 s D I
+  have hfa : a1 ^ 2 * f = γ * rttot := by rw [hf, ← hE]; field_simp
+  have hG1 : 0 < f ^ (1 / (γ - 1)) := by positivity
+  have hG2 : 0 < f ^ (γ / (γ - 1)) := by positivity
+  have hadd := rpow_inv_mul_self γ f hγ hfpos
+  have hrho : 0 < ptot / rttot / f ^ (1 / (γ - 1)) := by positivity
+  have hp1 : 0 < ptot / f ^ (γ / (γ - 1)) := by positivity
+  have hratio : ptot / f ^ (γ / (γ - 1)) / (ptot / rttot / f ^ (1 / (γ - 1))) = rttot / f := by
+    rw [← hadd]; field_simp
+  have hc2 : γ * (ptot / f ^ (γ / (γ - 1))) / (ptot / rttot / f ^ (1 / (γ - 1))) = a1 ^ 2 := by
+    rw [mul_div_assoc, hratio]
+    have : γ * rttot = a1 ^ 2 * f := hfa.symm
+    field_simp; linarith
+  have hM : 1 + (γ - 1) / 2 * (u1 ^ 2 / a1 ^ 2) = f := by rw [hf, div_pow]; ring
+  refine ⟨hrho, hp1, ?_, ?_, ?_⟩
+  · unfold ptotOf
+    rw [hc2, hM]; field_simp
+  · unfold rttotOf
+    rw [hc2, hM, hratio]; field_simp
+  · rw [hc2, Real.sqrt_sq ha1pos.le, hu1]; field_simp; ring
+
+/-! ### outsub_qtot: interior totals kept, pressure imposed, outflow -/
+theorem outsub_qtot_def (γ dir pext r u p : ℝ) (hγ : 1 < γ) (hr : 0 < r) (hp : 0 < p) (hpe : 0 < pext)
+    (hreg : pext ≤ ptotOf γ r u p) (hdir : dir = 1 ∨ dir = -1) :
+    (let W := eBcOutsubQtot γ dir pext r u p
+     W.2.2 = pext ∧ 0 < W.1 ∧ ptotOf γ W.1 W.2.1 W.2.2 = ptotOf γ r u p
+     ∧ rttotOf γ W.1 W.2.1 W.2.2 = rttotOf γ r u p ∧ 0 ≤ dir * W.2.1) := by
+  have hg0 : 0 < γ := by linarith
+  have hgmu : 0 < γ - 1 := by linarith
+  have hPt : p * (1 + 1/2 * (γ - 1) * (u ^ 2 / (γ * p / r))) ^ (γ / (γ - 1)) = ptotOf γ r u p := by
+    unfold ptotOf; congr 2; ring
+  have hRt : p / r * (1 + 1/2 * (γ - 1) * (u ^ 2 / (γ * p / r))) = rttotOf γ r u p := by
+    unfold rttotOf; ring
+  have hrt : 0 < rttotOf γ r u p := by
+    unfold rttotOf
+    have : 0 ≤ u ^ 2 / (γ * p / r) := by positivity
+    have : 0 < 1 + (γ - 1) / 2 * (u ^ 2 / (γ * p / r)) := by positivity
+    positivity
+  simp only [eBcOutsubQtot, HasSqrt.sqrt_real, HasRpow.rpow_real]
+  rw [hPt, hRt]
+  set ptot := ptotOf γ r u p with hptot
+  set rttot := rttotOf γ r u p with hrttot
+  set m2 := max 0 (((ptot / pext) ^ ((γ - 1) / γ) - 1) * 2 / (γ - 1)) with hm2
+  set rh := ptot / rttot / (1 + 1/2 * (γ - 1) * m2) ^ (1 / (γ - 1)) with hrh
+  obtain ⟨hm0, hrhpos, hcore⟩ :=
+    inlet_core γ ptot rttot pext (dir * Real.sqrt (γ * m2 * pext / rh)) m2 rh hγ hpe hreg hrt hm2 hrh
+  have hrad : 0 ≤ γ * m2 * pext / rh := by positivity
+  have hd2 : dir ^ 2 = 1 := by rcases hdir with h | h <;> rw [h] <;> norm_num
+  have hv : (dir * Real.sqrt (γ * m2 * pext / rh)) ^ 2 = γ * m2 * pext / rh := by
+    rw [mul_pow, Real.sq_sqrt hrad, hd2, one_mul]
+  obtain ⟨h1, h2⟩ := hcore hv
+  refine ⟨trivial, hrhpos, h1, h2, ?_⟩
+  have : dir * (dir * Real.sqrt (γ * m2 * pext / rh)) = dir ^ 2 * Real.sqrt (γ * m2 * pext / rh) := by
+    ring
+  rw [this, hd2, one_mul]; exact Real.sqrt_nonneg _
+
+/-! ### outsub_nrcbc: entropy `p/ρ^γ` and outgoing invariant `u - dir·2c/(γ-1)` kept, pressure imposed -/
+theorem outsub_nrcbc_def (γ dir pext r u p : ℝ) (hγ : 1 < γ) (hr : 0 < r) (hp : 0 < p) (hpe : 0 < pext) :
+    (let W := eBcOutsubNrcbc γ dir pext r u p
+     W.2.2 = pext ∧ 0 < W.1 ∧ W.2.2 / W.1 ^ γ = p / r ^ γ
+     ∧ W.2.1 - dir * 2 / (γ - 1) * Real.sqrt (γ * W.2.2 / W.1)
+         = u - dir * 2 / (γ - 1) * Real.sqrt (γ * p / r)) := by
+  simp only [eBcOutsubNrcbc, HasSqrt.sqrt_real, HasRpow.rpow_real]
+  have hg0 : 0 < γ := by linarith
+  have hq : 0 < pext / p := by positivity
+  have hqg : 0 < (pext / p) ^ (1 / γ) := by positivity
+  have hrg : 0 < r ^ γ := by positivity
+  have hpow : (r * (pext / p) ^ (1 / γ)) ^ γ = r ^ γ * (pext / p) := by
+    rw [Real.mul_rpow hr.le hqg.le, ← Real.rpow_mul hq.le]
+    have : 1 / γ * γ = 1 := by field_simp
+    rw [this, Real.rpow_one]
+  refine ⟨trivial, by positivity, ?_, by ring⟩
+  rw [hpow]; field_simp
+
+/-! ### outsub_rh: the three Rankine–Hugoniot relations across a shock of speed `Ws` -/
+theorem outsub_rh_def (γ dir pext r u p : ℝ) (hγ : 1 < γ) (hr : 0 < r) (hp : 0 < p)
+    (hpe : 0 < pext) (hdir : dir = 1 ∨ dir = -1) :
+    (let W := eBcOutsubRh γ dir pext r u p
+     let Ms2 := 1 + (pext / p - 1) * (γ + 1) / (2 * γ)
+     let Ws := u - dir * Real.sqrt (γ * p / r * Ms2)
+     W.2.2 = pext
+     ∧ W.1 * (W.2.1 - Ws) = r * (u - Ws)
+     ∧ W.1 * (W.2.1 - Ws) ^ 2 + W.2.2 = r * (u - Ws) ^ 2 + p
+     ∧ γ / (γ - 1) * W.2.2 / W.1 + (W.2.1 - Ws) ^ 2 / 2 = γ / (γ - 1) * p / r + (u - Ws) ^ 2 / 2) := by
+  simp only [eBcOutsubRh, HasSqrt.sqrt_real]
+  have hgmu : 0 < γ - 1 := by linarith
+  have hg0 : 0 < γ := by linarith
+  have hMpos : 0 < 1 + (pext / p - 1) * (γ + 1) / (2 * γ) := by
+    have : 1 + (pext / p - 1) * (γ + 1) / (2 * γ) = ((γ - 1) + pext / p * (γ + 1)) / (2 * γ) := by
+      field_simp; ring
+    rw [this]; exact div_pos (add_pos hgmu (by positivity)) (by positivity)
+  have hpe' : pext = p * (1 + ((1 + (pext / p - 1) * (γ + 1) / (2 * γ)) - 1) * (2 * γ) / (γ + 1)) := by
+    have : γ + 1 ≠ 0 := by linarith
+    field_simp; ring
+  generalize 1 + (pext / p - 1) * (γ + 1) / (2 * γ) = M at hMpos hpe' ⊢
+  set s := Real.sqrt (γ * p / r * M) with hs
+  have hs2 : s ^ 2 = γ * p / r * M := Real.sq_sqrt (by positivity)
+  have hden : 0 < 2 + (γ - 1) * M := by have := mul_pos hgmu hMpos; linarith
+  set rr := (γ + 1) * M / (2 + (γ - 1) * M) with hrr
+  have hrrpos : 0 < rr := div_pos (by positivity) hden
+  have hd2 : dir ^ 2 = 1 := by rcases hdir with h | h <;> rw [h] <;> norm_num
+  have e1 : u - dir * s + (u - (u - dir * s)) / rr - (u - dir * s) = dir * s / rr := by ring
+  have e2 : u - (u - dir * s) = dir * s := by ring
+  rw [e1, e2]
+  have hq : (dir * s / rr) ^ 2 = γ * p / r * M / rr ^ 2 := by
+    rw [div_pow, mul_pow, hd2, hs2, one_mul]
+  have hq2 : (dir * s) ^ 2 = γ * p / r * M := by rw [mul_pow, hd2, hs2, one_mul]
+  obtain ⟨a1, a2⟩ := rh_alg γ r p M hγ hr hp hMpos
+  rw [← hrr, ← hpe'] at a1 a2
+  refine ⟨trivial, by field_simp, ?_, ?_⟩
+  · rw [hq, hq2]; exact a1
+  · rw [hq, hq2]; exact a2
+
+/-! ### 2D: wall, outlet, inlets with a unit normal `(nx, ny)` -/
+/-- `sym` reverses the normal velocity and keeps the tangential one, density and pressure -/
+theorem sym2d_def (nx ny r ux uy p : ℝ) (hn : nx ^ 2 + ny ^ 2 = 1) :
+    (let W := e2BcSym nx ny r ux uy p
+     W.1 = r ∧ W.2.2.2 = p
+     ∧ W.2.1 * nx + W.2.2.1 * ny = -(ux * nx + uy * ny)
+     ∧ W.2.1 * (-ny) + W.2.2.1 * nx = ux * (-ny) + uy * nx) := by
+  simp only [e2BcSym]
+  refine ⟨trivial, trivial, ?_, ?_⟩
+  · have : (ux - 2 * ((ux * nx + uy * ny) * nx)) * nx + (uy - 2 * ((ux * nx + uy * ny) * ny)) * ny
+        = (ux * nx + uy * ny) * (1 - 2 * (nx ^ 2 + ny ^ 2)) := by ring
+    rw [this, hn]; ring
+  · ring
+theorem outsub2d_def (pext r ux uy p : ℝ) : e2BcOutsub pext r ux uy p = (r, ux, uy, pext) := rfl
+theorem outsup2d_def (r ux uy p : ℝ) : e2BcOutsup r ux uy p = (r, ux, uy, p) := rfl
+/-- 2D `insub`: velocity along `-n` (into the domain), interior pressure, imposed totals
+(totals evaluated with the velocity magnitude) -/
+theorem insub2d_def (γ nx ny ptot rttot r ux uy p : ℝ) (hγ : 1 < γ) (hp : 0 < p) (hpt : p ≤ ptot)
+    (hrt : 0 < rttot) (hn : nx ^ 2 + ny ^ 2 = 1) :
+    (let W := e2BcInsub γ nx ny ptot rttot r ux uy p
+     let vmag := Real.sqrt (W.2.1 ^ 2 + W.2.2.1 ^ 2)
+     W.2.2.2 = p ∧ 0 < W.1 ∧ ptotOf γ W.1 vmag W.2.2.2 = ptot ∧ rttotOf γ W.1 vmag W.2.2.2 = rttot
+     ∧ W.2.1 * nx + W.2.2.1 * ny ≤ 0 ∧ W.2.1 * (-ny) + W.2.2.1 * nx = 0) := by
+  simp only [e2BcInsub, HasSqrt.sqrt_real, HasRpow.rpow_real]
+  set m2 := max 0 (((ptot / p) ^ ((γ - 1) / γ) - 1) * 2 / (γ - 1)) with hm2
+  set rh := ptot / rttot / (1 + 1/2 * (γ - 1) * m2) ^ (1 / (γ - 1)) with hrh
+  set s := Real.sqrt (γ * p * m2 / rh) with hs
+  have hg0 : 0 < γ := by linarith
+  obtain ⟨hm0, hrhpos, hcore⟩ :=
+    inlet_core γ ptot rttot p (Real.sqrt ((-s * nx) ^ 2 + (-s * ny) ^ 2)) m2 rh hγ hp hpt hrt hm2 hrh
+  have hrad : 0 ≤ γ * p * m2 / rh := by positivity
+  have hs0 : 0 ≤ s := Real.sqrt_nonneg _
+  have hs2 : s ^ 2 = γ * p * m2 / rh := Real.sq_sqrt hrad
+  have hsum : (-s * nx) ^ 2 + (-s * ny) ^ 2 = s ^ 2 := by
+    have : (-s * nx) ^ 2 + (-s * ny) ^ 2 = s ^ 2 * (nx ^ 2 + ny ^ 2) := by ring
+    rw [this, hn, mul_one]
+  have hv : (Real.sqrt ((-s * nx) ^ 2 + (-s * ny) ^ 2)) ^ 2 = γ * m2 * p / rh := by
+    rw [hsum, Real.sq_sqrt (sq_nonneg s), hs2]; ring
+  obtain ⟨h1, h2⟩ := hcore hv
+  refine ⟨trivial, hrhpos, h1, h2, ?_, by ring⟩
+  have : -s * nx * nx + -s * ny * ny = -s * (nx ^ 2 + ny ^ 2) := by ring
+  rw [this, hn]; linarith
+/-- 2D `insup` with inflow direction `(dx, dy)` (unit): imposed totals and pressure, velocity along it -/
+theorem insup2d_def (γ dx dy ptot rttot pin : ℝ) (hγ : 1 < γ) (hp : 0 < pin) (hpt : pin ≤ ptot)
+    (hrt : 0 < rttot) (hd : dx ^ 2 + dy ^ 2 = 1) :
+    (let W := e2BcInsup γ dx dy ptot rttot pin
+     let vmag := Real.sqrt (W.2.1 ^ 2 + W.2.2.1 ^ 2)
+     W.2.2.2 = pin ∧ 0 < W.1 ∧ ptotOf γ W.1 vmag W.2.2.2 = ptot ∧ rttotOf γ W.1 vmag W.2.2.2 = rttot
+     ∧ 0 ≤ W.2.1 * dx + W.2.2.1 * dy ∧ W.2.1 * (-dy) + W.2.2.1 * dx = 0) := by
+  simp only [e2BcInsup, HasSqrt.sqrt_real, HasRpow.rpow_real]
+  set m2 := max 0 (((ptot / pin) ^ ((γ - 1) / γ) - 1) * 2 / (γ - 1)) with hm2
+  set rh := ptot / rttot / (1 + 1/2 * (γ - 1) * m2) ^ (1 / (γ - 1)) with hrh
+  set s := Real.sqrt (γ * pin * m2 / rh) with hs
+  have hg0 : 0 < γ := by linarith
+  obtain ⟨hm0, hrhpos, hcore⟩ :=
+    inlet_core γ ptot rttot pin (Real.sqrt ((s * dx) ^ 2 + (s * dy) ^ 2)) m2 rh hγ hp hpt hrt hm2 hrh
+  have hrad : 0 ≤ γ * pin * m2 / rh := by positivity
+  have hs0 : 0 ≤ s := Real.sqrt_nonneg _
+  have hs2 : s ^ 2 = γ * pin * m2 / rh := Real.sq_sqrt hrad
+  have hsum : (s * dx) ^ 2 + (s * dy) ^ 2 = s ^ 2 := by
+    have : (s * dx) ^ 2 + (s * dy) ^ 2 = s ^ 2 * (dx ^ 2 + dy ^ 2) := by ring
+    rw [this, hd, mul_one]
+  have hv : (Real.sqrt ((s * dx) ^ 2 + (s * dy) ^ 2)) ^ 2 = γ * m2 * pin / rh := by
+    rw [hsum, Real.sq_sqrt (sq_nonneg s), hs2]; ring
+  obtain ⟨h1, h2⟩ := hcore hv
+  refine ⟨trivial, hrhpos, h1, h2, ?_, by ring⟩
+  have : s * dx * dx + s * dy * dy = s * (dx ^ 2 + dy ^ 2) := by ring
+  rw [this, hd]; linarith
+
+/-! ### compatibility (used by C03): with the parameters of the interior state itself the
+inlet/outlet conditions return the interior state -/
+theorem insub_compatible (γ dir r u p : ℝ) (hγ : 1 < γ) (hr : 0 < r) (hp : 0 < p)
+    (hdir : dir = 1 ∨ dir = -1) (hin : 0 ≤ -dir * u) :
+    eBcInsub γ dir (ptotOf γ r u p) (rttotOf γ r u p) r u p = (r, u, p) := by
+  have hg0 : 0 < γ := by linarith
+  obtain ⟨c1, c2⟩ := compat_core γ r u p hγ hr hp
+  simp only [eBcInsub, HasSqrt.sqrt_real, HasRpow.rpow_real]
+  rw [c1, c2]
+  have hrad : γ * (u ^ 2 / (γ * p / r)) * p / r = u ^ 2 := by field_simp
+  rw [hrad, Real.sqrt_sq_eq_abs]
+  refine Prod.ext rfl (Prod.ext ?_ rfl)
+  simp only
+  rcases hdir with h | h <;> rw [h] at hin ⊢
+  · rw [abs_of_nonpos (by linarith)]; ring
+  · rw [abs_of_nonneg (by linarith)]; ring
+theorem insup_compatible (γ dir r u p : ℝ) (hγ : 1 < γ) (hr : 0 < r) (hp : 0 < p)
+    (hdir : dir = 1 ∨ dir = -1) (hin : 0 ≤ -dir * u) :
+    eBcInsup γ dir (ptotOf γ r u p) (rttotOf γ r u p) p = (r, u, p) :=
+  insub_compatible γ dir r u p hγ hr hp hdir hin
+theorem outsub_compatible (r u p : ℝ) : eBcOutsub p r u p = (r, u, p) := rfl
+theorem outsub_qtot_compatible (γ dir r u p : ℝ) (hγ : 1 < γ) (hr : 0 < r) (hp : 0 < p)
+    (hdir : dir = 1 ∨ dir = -1) (hout : 0 ≤ dir * u) :
+    eBcOutsubQtot γ dir p r u p = (r, u, p) := by
+  have hg0 : 0 < γ := by linarith
+  obtain ⟨c1, c2⟩ := compat_core γ r u p hγ hr hp
+  have hPt : p * (1 + 1/2 * (γ - 1) * (u ^ 2 / (γ * p / r))) ^ (γ / (γ - 1)) = ptotOf γ r u p := by
+    unfold ptotOf; congr 2; ring
+  have hRt : p / r * (1 + 1/2 * (γ - 1) * (u ^ 2 / (γ * p / r))) = rttotOf γ r u p := by
+    unfold rttotOf; ring
+  simp only [eBcOutsubQtot, HasSqrt.sqrt_real, HasRpow.rpow_real]
+  rw [hPt, hRt, c1, c2]
+  have hrad : γ * (u ^ 2 / (γ * p / r)) * p / r = u ^ 2 := by field_simp
+  rw [hrad, Real.sqrt_sq_eq_abs]
+  refine Prod.ext rfl (Prod.ext ?_ rfl)
+  simp only
+  rcases hdir with h | h <;> rw [h] at hout ⊢
+  · rw [abs_of_nonneg (by linarith)]; ring
+  · rw [abs_of_nonpos (by linarith)]; ring
+theorem outsub_nrcbc_compatible (γ dir r u p : ℝ) (hγ : 1 < γ) (hr : 0 < r) (hp : 0 < p) :
+    eBcOutsubNrcbc γ dir p r u p = (r, u, p) := by
+  simp only [eBcOutsubNrcbc, HasSqrt.sqrt_real, HasRpow.rpow_real]
+  rw [div_self hp.ne', Real.one_rpow, mul_one, sub_self, mul_zero, add_zero]
+theorem outsub_rh_compatible (γ dir r u p : ℝ) (hγ : 1 < γ) (hr : 0 < r) (hp : 0 < p) :
+    eBcOutsubRh γ dir p r u p = (r, u, p) := by
+  simp only [eBcOutsubRh, HasSqrt.sqrt_real]
+  have hg0 : 0 < γ := by linarith
+  have hM : 1 + (p / p - 1) * (γ + 1) / (2 * γ) = 1 := by rw [div_self hp.ne']; ring
+  rw [hM]
+  have hrr : (γ + 1) * 1 / (2 + (γ - 1) * 1) = 1 := by
+    have : γ + 1 ≠ 0 := by linarith
+    rw [show 2 + (γ - 1) * 1 = (γ + 1) * 1 by ring]; exact div_self (by simpa using this)
+  rw [hrr]
+  refine Prod.ext (by simp) (Prod.ext ?_ rfl)
+  simp only; ring
+
 end Flowdyn.C16
